@@ -207,29 +207,31 @@ Lemma heap_exports es : forall vm,
   m_heap (fold_left (fun v e => set_name v (fst e) (glookup (gmap v) (snd e))) es vm) = m_heap vm.
 Proof. induction es as [|e r IH]; intro vm; [reflexivity|]. cbn [fold_left]. now rewrite IH. Qed.
 
-Definition agrees5 (rc : mstate * cstate * N * list Z * status) (rm : mstate * list Z * status) : Prop :=
-  let '(vm', cs', u', out, s) := rc in rm = (vm', out, s) /\ cache_ok (m_heap vm') cs'.
+Definition agrees5 (rc : mstate * cstate * N * list N * list Z * status) (rm : mstate * list N * list Z * status) : Prop :=
+  let '(vm', cs', u', l', out, s) := rc in rm = (vm', l', out, s) /\ cache_ok (m_heap vm') cs'.
 
-Lemma load_modules_c_m fuel : forall ms vm cs u, cache_ok (m_heap vm) cs ->
-  agrees5 (load_modules_c C slot_of native_hint fuel vm cs u ms) (load_modules C fuel vm ms).
+Lemma load_modules_c_m fuel : forall ms vm cs u ld, cache_ok (m_heap vm) cs ->
+  agrees5 (load_modules_c C slot_of native_hint fuel vm cs u ld ms) (load_modules C fuel vm ld ms).
 Proof.
-  induction ms as [|m r IH]; intros vm cs u K. { cbn. split; [reflexivity|exact K]. }
+  induction ms as [|m r IH]; intros vm cs u ld K. { cbn. split; [reflexivity|exact K]. }
   cbn [load_modules_c load_modules].
-  assert (H : agrees (if mu_run m then run_unit_c C slot_of native_hint fuel vm cs u (mu_layout m) (mu_body m) else (vm, cs, [], SOk))
-                     (if mu_run m then run_unit C fuel vm (mu_layout m) (mu_body m) else (vm, [], SOk))).
-  { destruct (mu_run m); [now apply run_unit_c_m|split; [reflexivity|exact K]]. }
-  destruct (if mu_run m then run_unit_c C slot_of native_hint fuel vm cs u (mu_layout m) (mu_body m) else (vm, cs, [], SOk)) as [[[vm1 cs1] out] s].
+  destruct (mu_fails m). { split; [reflexivity|exact K]. }
+  set (run := negb (memb (mu_id m) ld)).
+  assert (H : agrees (if run then run_unit_c C slot_of native_hint fuel vm cs u (mu_layout m) (mu_body m) else (vm, cs, [], SOk))
+                     (if run then run_unit C fuel vm (mu_layout m) (mu_body m) else (vm, [], SOk))).
+  { destruct run; [now apply run_unit_c_m|split; [reflexivity|exact K]]. }
+  destruct (if run then run_unit_c C slot_of native_hint fuel vm cs u (mu_layout m) (mu_body m) else (vm, cs, [], SOk)) as [[[vm1 cs1] out] s].
   destruct H as [E K1]. rewrite E.
   destruct s; try (split; [reflexivity|exact K1]).
-  set (vm2 := if MODULE_SYNCS_BEFORE_EXPORTS && mu_run m then sync_loaded vm1 else vm1).
+  set (vm2 := if MODULE_SYNCS_BEFORE_EXPORTS && run then sync_loaded vm1 else vm1).
   set (vm3 := fold_left (fun v e => set_name v (fst e) (glookup (gmap v) (snd e))) (mu_exports m) vm2).
   set (cs2 := match mu_exports m with [] => cs1 | _ => clear cs1 end).
   assert (K3 : cache_ok (m_heap vm3) cs2).
   { unfold vm3, cs2. rewrite heap_exports. unfold vm2.
-    destruct (MODULE_SYNCS_BEFORE_EXPORTS && mu_run m); rewrite ?heap_sync_loaded;
+    destruct (MODULE_SYNCS_BEFORE_EXPORTS && run); rewrite ?heap_sync_loaded;
       (destruct (mu_exports m); [exact K1|apply cache_ok_clear]). }
-  pose proof (IH vm3 cs2 (N.succ u) K3) as H.
-  destruct (load_modules_c C slot_of native_hint fuel vm3 cs2 (N.succ u) r) as [[[[vm4 cs3] u'] out2] s2].
+  pose proof (IH vm3 cs2 (N.succ u) (if run then mu_id m :: ld else ld) K3) as H.
+  destruct (load_modules_c C slot_of native_hint fuel vm3 cs2 (N.succ u) (if run then mu_id m :: ld else ld) r) as [[[[[vm4 cs3] u'] l4] out2] s2].
   destruct H as [E2 K4]. rewrite E2. split; [reflexivity|exact K4].
 Qed.
 
@@ -243,8 +245,8 @@ Proof.
   - set (vm0 := if REPL_CLEARS_FRAMES_FIRST then with_frames (d_vm (cd_d cd)) [] else d_vm (cd_d cd)).
     assert (K0 : cache_ok (m_heap vm0) (cd_cs cd)).
     { unfold vm0. destruct REPL_CLEARS_FRAMES_FIRST; rewrite ?heap_with_frames; exact K. }
-    pose proof (load_modules_c_m fuel imports vm0 (cd_cs cd) (cd_unit cd) K0) as H.
-    destruct (load_modules_c C slot_of native_hint fuel vm0 (cd_cs cd) (cd_unit cd) imports) as [[[[vm1 cs1] u1] out1] s1].
+    pose proof (load_modules_c_m fuel imports vm0 (cd_cs cd) (cd_unit cd) (d_loaded (cd_d cd)) K0) as H.
+    destruct (load_modules_c C slot_of native_hint fuel vm0 (cd_cs cd) (cd_unit cd) (d_loaded (cd_d cd)) imports) as [[[[[vm1 cs1] u1] l1] out1] s1].
     destruct H as [E K1]. rewrite E.
     destruct s1; try (split; [reflexivity|exact K1]).
     destruct (negb compiles). { split; [reflexivity|exact K1]. }
